@@ -21,6 +21,7 @@ type Config struct {
 	ROProbe   float64                     // probability of a read-only-transaction probe block
 	MaxDepth  int                         // bucket nesting
 	NoBigKeys bool
+	Managed   float64 // probability that a write transaction runs inside DB.Update (body returns nil, an error, or panics)
 }
 
 func (c *Config) defaults() {
@@ -316,7 +317,12 @@ func Generate(seed int64, caseNo int, cfg Config) *Program {
 	opts.PageSize = cfg.PageSize
 	g.emit(Step{Op: "open", Opts: &opts})
 	for t := 0; t < cfg.Txs; t++ {
-		g.emit(Step{Op: "begin", W: true})
+		managed := r.Float64() < cfg.Managed
+		if managed {
+			g.emit(Step{Op: "begin", W: true, How: "update"})
+		} else {
+			g.emit(Step{Op: "begin", W: true})
+		}
 		if r.Intn(4) == 0 {
 			// set a fill percent for buckets touched in this transaction
 			fs := []float64{0.1, 0.3, 0.5, 0.9, 1.0}
@@ -333,7 +339,11 @@ func Generate(seed int64, caseNo int, cfg Config) *Program {
 			g.emit(Step{Op: "dump"})
 		}
 		if r.Float64() < cfg.Rollback {
-			g.emit(Step{Op: "rollback"})
+			how := ""
+			if managed && r.Intn(2) == 0 {
+				how = "panic"
+			}
+			g.emit(Step{Op: "rollback", How: how})
 		} else {
 			g.emit(Step{Op: "commit"})
 		}
